@@ -598,6 +598,11 @@ func (c *Ctx) checkStripFilter(fn, isLocal *ssa.Function) {
 		what  string
 		specs []condSpec
 	}{"IsLocal || IsUnspecified || IsLoopback", anyLocal})
+	if unm != nil {
+		// the candidate parser sees the attribute's value as it is (trimming or rewriting it changes what parses)
+		_, vf, okv := fieldLoad(unm.Call.Args[0])
+		c.check(okv && vf.Name() == "Value", rule, "UnmarshalCandidate is given the attribute's Value unmodified", p.instrPos(unm), "", "the text handed to the candidate parser is not the attribute's Value itself: a candidate line that no longer parses is kept, local address included")
+	}
 	c.check(nPred == 3 && unm != nil && parse != nil, rule, "the filter consults IsLocal, IsUnspecified and IsLoopback on the parsed candidate address", p.Pos(fn.Pos()), "", fmt.Sprintf("only %d of the three address predicates are applied to the parsed address", nPred))
 	blockedAppend := func(b *ssa.BasicBlock) bool { return b == app.Block() }
 	for _, cd := range conds {
@@ -660,6 +665,30 @@ func (c *Ctx) checkStripFilter(fn, isLocal *ssa.Function) {
 		}
 	}
 	c.check(okOut, rule, "the result is the re-marshalled filtered description", p.Pos(fn.Pos()), "", "no return carries the output of desc.Marshal(): the filtered candidates are thrown away")
+	// the caller's own string comes back only when parsing or marshalling failed (never as a shortcut
+	// that some condition on the filtering decides)
+	{
+		var errE []Edge
+		for _, ci := range callsIn(fn) {
+			cc, ok := ci.(*ssa.Call)
+			if !ok {
+				continue
+			}
+			n := calleeName(cc)
+			if strings.HasSuffix(n, "SessionDescription).Unmarshal") || strings.HasSuffix(n, "SessionDescription).Marshal") {
+				ei := errResultIndex(cc.Call.Signature())
+				if ei >= 0 {
+					errE = append(errE, nilCheckEdges(fn, false, func(v ssa.Value) bool { return errFrom(v, cc, ei) })...)
+				}
+			}
+		}
+		for _, r := range returnsOf(fn) {
+			if len(r.Results) == 1 && len(fn.Params) > 0 && strip(retVal(r, 0)) == ssa.Value(fn.Params[0]) {
+				path := reachableWithout(fn, r, errE)
+				c.check(len(errE) > 0 && path == nil, rule, "the input comes back unchanged only after a parse or marshal error", p.instrPos(r), "", "a path returns the caller's string without a parse/marshal failure: whatever was filtered on that path is thrown away and the local addresses stay in", p.pathString(path)...)
+			}
+		}
+	}
 	// the filtered slice replaces the section's attributes
 	okAssign := false
 	allInstrs(fn, func(in ssa.Instruction) {
